@@ -160,16 +160,12 @@ def run_impl_resilient(argv, infile, outfile, timeout, mem_gb=None, max_restarts
 
 
 def load_known():
-    """KNOWN_FINDINGS.json (global) plus per-property findings/<id>.json; never written at run time"""
-    out = []
-    paths = [os.path.join(VERIF, "KNOWN_FINDINGS.json")]
-    fd = os.path.join(VERIF, "findings")
-    if os.path.isdir(fd):
-        paths += sorted(os.path.join(fd, f) for f in os.listdir(fd) if f.endswith(".json"))
-    for p in paths:
-        if os.path.exists(p):
-            out += json.load(open(p)).get("findings", [])
-    return out
+    """KNOWN_FINDINGS.json is the single committed known-findings file (bin/mkfindings builds it from
+    findings/Cxx.json); it is never written at run time."""
+    p = os.path.join(VERIF, "KNOWN_FINDINGS.json")
+    if not os.path.exists(p):
+        return []
+    return json.load(open(p)).get("findings", [])
 
 
 def write_json(path, obj):
